@@ -476,8 +476,9 @@ impl<'a> Runner<'a> {
             // known-finding classes, decided on the INPUT (see props/C08.py KNOWN_CLASSES):
             //  forced_direction_regrouping: the direction is forced and the same request with the direction left
             //    to the script passes;
-            //  indic_zwnj_cluster_split: Indic-shaper script, the text contains U+200C and the same request with
-            //    every U+200C removed passes.
+            //  indic_zwnj_cluster_split: Indic-shaper script, the text contains a joiner (U+200C, or U+200D: seen once
+            //    in 167M shapes, Bengali <09CD 200D 09DD 09C8 0983 09CD 09A1 09CB>) and the same request with every
+            //    joiner removed passes.
             let mut known: Option<&str> = None;
             if !w.starts_with("panic") {
                 if req.dir.is_some() {
@@ -487,11 +488,19 @@ impl<'a> Runner<'a> {
                         known = Some("forced_direction_regrouping");
                     }
                 }
-                if known.is_none() && self.pool.shaper == "indic" && req.text.iter().any(|(c, _)| *c == 0x200C) {
+                let zwnj = self.pool.shaper == "indic" && req.text.iter().any(|(c, _)| *c == 0x200C || *c == 0x200D);
+                if known.is_none() && zwnj {
                     let mut r2 = req.clone();
-                    r2.text = req.text.iter().filter(|(c, _)| *c != 0x200C).enumerate().map(|(i, (c, _))| (*c, i as u32)).collect();
+                    r2.text = req.text.iter().filter(|(c, _)| *c != 0x200C && *c != 0x200D).enumerate().map(|(i, (c, _))| (*c, i as u32)).collect();
                     if self.passes(face, &r2, f25) {
                         known = Some("indic_zwnj_cluster_split");
+                    } else if req.dir.is_some() {
+                        // both triggers present (forced direction AND U+200C in an Indic text): inside the union of the
+                        // two classes when removing both makes the request pass
+                        r2.dir = None;
+                        if self.passes(face, &r2, f25) {
+                            known = Some("indic_zwnj_cluster_split");
+                        }
                     }
                 }
             }
